@@ -687,49 +687,117 @@ fn twin_router(c: &TwinCfg, blocking: bool, nmw: usize, order: u8, counts: &[Arc
 }
 
 static E2E_DONE: AtomicU64 = AtomicU64::new(0);
-static E2E_CAP: AtomicU64 = AtomicU64::new(250);
+static NO_RESPONSE_SEEN: AtomicU64 = AtomicU64::new(0);
+static E2E_CAP: AtomicU64 = AtomicU64::new(600);
 
 fn async_rt() -> &'static tokio::runtime::Runtime {
+    // deliberately starved: one worker, one blocking thread (class l: nothing to spare when a response is due)
     static RT: std::sync::OnceLock<tokio::runtime::Runtime> = std::sync::OnceLock::new();
-    RT.get_or_init(|| tokio::runtime::Builder::new_multi_thread().worker_threads(2).enable_all().build().expect("tokio runtime"))
+    RT.get_or_init(|| tokio::runtime::Builder::new_multi_thread().worker_threads(1).max_blocking_threads(1).enable_all().build().expect("tokio runtime"))
 }
 
-/// `decoys` requests and then the real one, pipelined on ONE connection to a real server (blocking
-/// `repe::Server` or `repe::AsyncServer`, options from `srv`); returns the response to the last.
-/// Socket trouble is reported as Err and never judged (only a response that arrives is compared).
-fn tcp_roundtrip(router: Router, frames: &[Vec<u8>], srv: u8) -> Result<Vec<Message>, &'static str> {
-    use std::io::Write;
+fn start_server(router: Router, srv: u8, short_read_timeout: bool) -> Result<std::net::SocketAddr, &'static str> {
     let to = |bit: u8| if srv & bit != 0 { Some(std::time::Duration::from_secs(30)) } else { None };
-    let addr = if srv & 8 == 0 {
-        let server = repe::Server::new(router).tcp_nodelay(srv & 1 != 0).read_timeout(to(2)).write_timeout(to(4));
+    let rto = if short_read_timeout { Some(std::time::Duration::from_millis(60)) } else { to(2) };
+    if srv & 8 == 0 {
+        let server = repe::Server::new(router).tcp_nodelay(srv & 1 != 0).read_timeout(rto).write_timeout(to(4));
         let listener = server.listen("127.0.0.1:0").map_err(|_| "bind")?;
         let addr = listener.local_addr().map_err(|_| "addr")?;
         std::thread::spawn(move || {
             let _ = server.serve(listener);
         });
-        addr
+        Ok(addr)
     } else {
         let rt = async_rt();
         let listener = rt.block_on(repe::AsyncServer::listen("127.0.0.1:0")).map_err(|_| "bind")?;
         let addr = listener.local_addr().map_err(|_| "addr")?;
-        let server = repe::AsyncServer::new(router).read_timeout(to(2)).write_timeout(to(4));
+        let server = repe::AsyncServer::new(router).read_timeout(rto).write_timeout(to(4));
         rt.spawn(async move {
             let _ = server.serve(listener).await;
         });
-        addr
-    };
+        Ok(addr)
+    }
+}
+
+/// One byte per `read` call: the peer that drains slowly.
+struct OneByte<R>(R);
+impl<R: std::io::Read> std::io::Read for OneByte<R> {
+    fn read(&mut self, buf: &mut [u8]) -> std::io::Result<usize> {
+        if buf.is_empty() { Ok(0) } else { self.0.read(&mut buf[..1]) }
+    }
+}
+
+/// All `frames` pipelined on ONE connection to a real server (blocking `repe::Server` or
+/// `repe::AsyncServer`, options from `srv`); returns every response.  `io` shapes the byte stream:
+/// bits 0-1 how the request bytes are cut (whole / 1-byte pieces / 2-3 pieces at cut points chosen from
+/// `salt`: inside the header, at 48, inside query, inside body / 1460-byte segments), bit 2 a 25 ms stall
+/// between pieces, bit 3 a stall longer than a short configured read timeout (the server may then drop the
+/// connection: not judged), bit 4 the client reads one byte per read call, bit 5 the client does not
+/// read anything until all requests are written (full socket buffers on the server's write side).
+/// Socket trouble is reported as Err and never judged (only responses that arrive are compared).
+fn tcp_roundtrip(router: Router, frames: &[Vec<u8>], srv: u8, io: u8, salt: u64) -> Result<Vec<Message>, &'static str> {
+    use std::io::Write;
+    let addr = start_server(router, srv, io & 8 != 0)?;
     let mut stream = std::net::TcpStream::connect(addr).map_err(|_| "connect")?;
-    stream.set_read_timeout(Some(std::time::Duration::from_secs(20))).map_err(|_| "timeout")?;
+    // watchdog: 12 s normally; once responses have gone missing in this run, 3 s (the tree is broken anyway)
+    let wd = if NO_RESPONSE_SEEN.load(Ordering::SeqCst) >= 2 { 3 } else { 12 };
+    stream.set_read_timeout(Some(std::time::Duration::from_secs(wd))).map_err(|_| "timeout")?;
     stream.set_nodelay(true).ok();
-    for f in frames {
-        stream.write_all(f).map_err(|_| "write")?;
+    let all: Vec<u8> = frames.concat();
+    let total = all.len();
+    let mode = if io & 3 == 1 && total > 6000 { 3 } else { io & 3 };
+    let mut cuts: Vec<usize> = match mode {
+        1 => (1..total).collect(),
+        2 => {
+            // inside the first header, at its end, inside the first query / body, and somewhere later
+            let cands = [1 + (salt % 47) as usize, 48, 49 + (salt / 7 % 3) as usize, 48 + frames[0].len().saturating_sub(48) / 2, frames[0].len(), (salt / 13) as usize % total.max(1)];
+            let mut c: Vec<usize> = vec![cands[(salt % 6) as usize], cands[(salt / 6 % 6) as usize]];
+            c.retain(|x| *x > 0 && *x < total);
+            c
+        }
+        3 => (1..=total / 1460).map(|k| k * 1460).filter(|x| *x < total).collect(),
+        _ => vec![],
+    };
+    cuts.sort_unstable();
+    cuts.dedup();
+    let stall = if io & 8 != 0 { 150 } else if io & 4 != 0 { 25 } else { 0 };
+    let mut ws = stream.try_clone().map_err(|_| "clone")?;
+    let writer = std::thread::spawn(move || {
+        let mut at = 0usize;
+        let mut stalled = 0;
+        for c in cuts.iter().chain(std::iter::once(&total)) {
+            if ws.write_all(&all[at..*c]).is_err() {
+                return;
+            }
+            at = *c;
+            // stall a bounded number of times (a 1-byte stream must not take minutes)
+            if stall > 0 && stalled < 4 {
+                std::thread::sleep(std::time::Duration::from_millis(stall));
+                stalled += 1;
+            }
+        }
+        let _ = ws.flush();
+    });
+    if io & 32 != 0 {
+        let _ = writer.join();
+        std::thread::sleep(std::time::Duration::from_millis(40));
     }
-    stream.flush().ok();
-    let mut all = Vec::new();
-    for _ in frames {
-        all.push(repe::read_message(&mut stream).map_err(|_| "read")?);
-    }
-    Ok(all)
+    let mut out = Vec::new();
+    let res = (|| {
+        if io & 16 != 0 {
+            let mut r = OneByte(&mut stream);
+            for _ in frames {
+                out.push(repe::read_message(&mut r).map_err(|_| "no_response")?);
+            }
+        } else {
+            for _ in frames {
+                out.push(repe::read_message(&mut stream).map_err(|_| "no_response")?);
+            }
+        }
+        Ok(())
+    })();
+    drop(stream);
+    res.map(|_| out)
 }
 
 /// Final response as the dispatch layer would send it (echo rule + error mapping), canonical text.
@@ -752,9 +820,10 @@ fn norm(req_id: u64, req_query: &[u8], r: Result<Result<Message, RepeError>, Str
 fn exec_twin(out: &mut Out, line: &str, w: &[&str]) -> (String, bool) {
     let idx = w[1];
     let bad = || (format!("{} bad-op", idx), false);
-    if w.len() != 24 {
+    if w.len() != 25 {
         return bad();
     }
+    let io: u8 = w[24].parse().unwrap_or(0);
     let kind = w[2];
     let blocking = w[3] == "1";
     let nmw: usize = w[4].parse().unwrap_or(0);
@@ -809,16 +878,20 @@ fn exec_twin(out: &mut Out, line: &str, w: &[&str]) -> (String, bool) {
         let t: String = cs.into_iter().collect();
         if t.len() == tpath.len() { t } else { format!("/{}", "y".repeat(tpath.len().saturating_sub(1))) }
     };
-    let decoy_reqs: Vec<Message> = [
+    // up to 3: one of each kind; more: a run of N IDENTICAL requests (same id, same bytes) of one kind
+    // (rejected format / large valid / undecodable) – the N-th must be treated like the first
+    let decoy_kinds: [(Vec<u8>, u16, &str); 3] = [
         (b"xyz".to_vec(), 77u16, sibling.as_str()),
         (serde_json::to_vec(&json!({"a": 5, "s": "d".repeat(9000)})).unwrap(), 2u16, tpath.as_str()),
         (b"{\"unterminated".to_vec(), 2u16, "/decoy/a"),
-    ]
-    .iter()
-    .take(decoys)
-    .enumerate()
-    .map(|(i, (b, f, q))| Message::builder().id(rid ^ (i as u64 + 1)).query_str(q).query_format_code(1).body_bytes(b.clone()).body_format_code(*f).build())
-    .collect();
+    ];
+    let decoy_reqs: Vec<Message> = (0..decoys)
+        .map(|i| {
+            let (k, id) = if decoys > 3 { (decoys % 3, rid ^ 1) } else { (i, rid ^ (i as u64 + 1)) };
+            let (b, f, q) = &decoy_kinds[k];
+            Message::builder().id(id).query_str(q).query_format_code(1).body_bytes(b.clone()).body_format_code(*f).build()
+        })
+        .collect();
     let mut fresh_baseline: Option<String> = None;
     if !panics {
         if let Some(fr) = twin_router(&cfg, false, 0, 0, &counts, &seen) {
@@ -879,6 +952,37 @@ fn exec_twin(out: &mut Out, line: &str, w: &[&str]) -> (String, bool) {
         }
     }
     let r0 = results[0].1.clone();
+    if panics && kind != "struct" && io & 128 != 0 && notify != 1 {
+        // (m) the connection thread / task unwinds; the server and its router must go on serving others.
+        // The second connection sends a request the route rejects before the closure runs.
+        let probe = Message::builder().id(rid ^ 5).query_str(&tpath).query_format_code(1).body_bytes(b"zz".to_vec()).body_format_code(77).build();
+        let want = norm(probe.header.id, &probe.query, catch(|| hp.handle(&probe)));
+        let t0 = std::time::Instant::now();
+        if let Ok(addr) = start_server(wrapped.clone(), srv, false) {
+            use std::io::Write;
+            if let Ok(mut a) = std::net::TcpStream::connect(addr) {
+                a.set_read_timeout(Some(std::time::Duration::from_secs(3))).ok();
+                let _ = a.write_all(&req.to_vec());
+                let _ = repe::read_message(&mut a); // EOF / error expected: not judged
+            }
+            if let Ok(mut b) = std::net::TcpStream::connect(addr) {
+                b.set_read_timeout(Some(std::time::Duration::from_secs(20))).ok();
+                if b.write_all(&probe.to_vec()).is_ok() {
+                    match repe::read_message(&mut b) {
+                        Ok(m) => {
+                            out.count("twin.e2e.after_panic.ok");
+                            let got = norm(probe.header.id, &probe.query, Ok(Ok(m)));
+                            if got != want && version == 1 {
+                                out.oracle_fail(&format!("router.twin.{}.after_panic", kind), &format!("after a handler panicked on another connection the server answered\n  {}\ninstead of\n  {}", got, want), &ops);
+                            }
+                        }
+                        Err(_) => out.count("twin.e2e.after_panic.io_error"),
+                    }
+                }
+            }
+        }
+        out.add("twin.e2e.ms.after_panic", t0.elapsed().as_millis() as u64);
+    }
     if panics {
         // The property says nothing about a handler that panics (a std lock may be poisoned by the
         // first route, so later routes legitimately differ): exercised and classified, not judged.
@@ -940,14 +1044,17 @@ fn exec_twin(out: &mut Out, line: &str, w: &[&str]) -> (String, bool) {
     }
     // end to end: the same request over TCP through the real `Server` (read_message_into →
     // MessageView → route_request_view → dispatch_view → echo) must give the same response
-    if idx.parse::<u64>().map(|i| i % 4 == 0).unwrap_or(false) && qfmt == 1 && version == 1 && notify != 1 && E2E_DONE.load(Ordering::SeqCst) < E2E_CAP.load(Ordering::SeqCst) {
+    if (io & 128 != 0 || idx.parse::<u64>().map(|i| i % 4 == 0).unwrap_or(false)) && qfmt == 1 && version == 1 && notify != 1 && E2E_DONE.load(Ordering::SeqCst) < E2E_CAP.load(Ordering::SeqCst) {
         if let Ok(path) = std::str::from_utf8(&query) {
             if wrapped.get(path).is_some() {
                 E2E_DONE.fetch_add(1, Ordering::SeqCst);
                 let mut frames: Vec<Vec<u8>> = decoy_reqs.iter().map(|d| d.to_vec()).collect();
                 frames.push(req.to_vec());
                 let which = if srv & 8 == 0 { "tcp_server" } else { "async_server" };
-                match tcp_roundtrip(wrapped.clone(), &frames, srv) {
+                let t0 = std::time::Instant::now();
+                let rr = tcp_roundtrip(wrapped.clone(), &frames, srv, io, rid ^ idx.parse::<u64>().unwrap_or(0));
+                out.add(&format!("twin.e2e.ms.io{}", io & 63), t0.elapsed().as_millis() as u64);
+                match rr {
                     Ok(mut all) => {
                         out.count(&format!("twin.e2e.{}.ok", which));
                         let m = all.pop().unwrap();
@@ -960,10 +1067,19 @@ fn exec_twin(out: &mut Out, line: &str, w: &[&str]) -> (String, bool) {
                         }
                         let got = norm(rid, &query, Ok(Ok(m)));
                         if got != r0 {
-                            out.oracle_fail(&format!("router.twin.{}.{}", kind, which), &format!("the server (options {}, after {} requests on the connection) answered\n  {}\nbut plain.handle answered\n  {}", srv, decoys, got, r0), &ops);
+                            out.oracle_fail(&format!("router.twin.{}.{}", kind, which), &format!("the server (options {}, io {io}, after {} requests on the connection) answered\n  {}\nbut plain.handle answered\n  {}", srv, decoys, got, r0), &ops);
                         }
                     }
-                    Err(e) => out.count(&format!("twin.e2e.io_error.{}", e)),
+                    Err(e) => {
+                        out.count(&format!("twin.e2e.io_error.{}", e));
+                        // Every request was written completely and is well formed; no handler panics; the server's read
+                        // timeout is not shorter than our stalls: then all responses are due (30 s watchdog). A dropped
+                        // connection or a response that never comes is "not the same response".
+                        if e == "no_response" && io & 8 == 0 {
+                            NO_RESPONSE_SEEN.fetch_add(1, Ordering::SeqCst);
+                            out.oracle_fail(&format!("router.twin.{}.{}.no_response", kind, which), &format!("the server (options {}, io {}) did not deliver all {} responses on the connection within the watchdog although in-process dispatch answers every request", srv, io, frames.len()), &ops);
+                        }
+                    }
                 }
             }
         }
@@ -1220,6 +1336,50 @@ fn exec_line(out: &mut Out, sc: &mut Scen, ds: &mut DState, line: &str) {
             out.config(line);
             out.count("op.clone");
         }
+        "observe" => {
+            // (j) observers vs mutators: `get` / `execution` hammered from 1-3 threads on this router while
+            // another builder keeps registering on a clone of it; every observation must be the snapshot's
+            const POOL: &[&str] = &["/a", "/a/b", "/r", "/r/x", "/s", "/s/x/y", "", "/", "/zz/top", "/ab", "/é/k", "/s/~01"];
+            let snap = Arc::new(sc.router.clone());
+            let want: Vec<(bool, &'static str)> = POOL.iter().map(|p| match snap.get(p) { Some(h) => (true, exec_name(h.execution())), None => (false, "-") }).collect();
+            let want = Arc::new(want);
+            let bad = Arc::new(AtomicU64::new(0));
+            let ths: Vec<_> = (0..n(2).clamp(1, 3))
+                .map(|_| {
+                    let (snap, want, bad) = (snap.clone(), want.clone(), bad.clone());
+                    std::thread::spawn(move || {
+                        for _ in 0..200 {
+                            for (p, w) in POOL.iter().zip(want.iter()) {
+                                let got = match snap.get(p) { Some(h) => (true, exec_name(h.execution())), None => (false, "-") };
+                                if got != *w {
+                                    bad.fetch_add(1, Ordering::SeqCst);
+                                }
+                            }
+                        }
+                    })
+                })
+                .collect();
+            let mut other = sc.router.clone();
+            for i in 0..40u64 {
+                other = other.with_json(POOL[(i % 12) as usize], |_v| Ok(Value::Null));
+                if i % 10 == 0 {
+                    other.register_middleware(CountMw(Arc::new(AtomicU64::new(0)), Arc::new(Mutex::new(vec![]))));
+                    other.register_registry("", Arc::new(Registry::new()));
+                }
+            }
+            drop(other);
+            for t in ths {
+                let _ = t.join();
+            }
+            sc.ops.push(line.to_string());
+            out.config(line);
+            out.count("op.observe");
+            if bad.load(Ordering::SeqCst) != 0 {
+                let mut ops = sc.ops.clone();
+                ops.push(line.to_string());
+                out.oracle_fail("router.observe.changed", &format!("{} concurrent get/execution observations differed from the router's own state while a clone was being extended", bad.load(Ordering::SeqCst)), &ops);
+            }
+        }
         "mw" => {
             sc.add_mw(n(2));
             sc.ops.push(line.to_string());
@@ -1308,13 +1468,74 @@ fn exec_line(out: &mut Out, sc: &mut Scen, ds: &mut DState, line: &str) {
             out.config(line);
             out.count("op.dlockfail");
         }
+        "dconc" => {
+            // (j) readers of /a from 1-3 threads while a writer stores w0..w9 there, all through the mount
+            let (obs, nt) = match (s(2), w.get(4).and_then(|h| unhex(h))) {
+                (Some(root), Some(fin)) => {
+                    ds.ops.push(line.to_string());
+                    let ops = ds.ops.clone();
+                    let router = ds.demo.mount(Router::new(), &root, true);
+                    let nroot = if root.is_empty() || root == "/" { String::new() } else if root.starts_with('/') { root.clone() } else { format!("/{}", root) };
+                    let path = format!("{}/a", nroot);
+                    match router.get(&path) {
+                        None => (format!("{} none", idx), false),
+                        Some(h) => {
+                            let read = |h: &Arc<dyn HandlerErased>| -> Option<Vec<u8>> {
+                                match catch(|| h.handle(&request(1, &path, b"", 2))) { Ok(Ok(m)) if m.header.ec == 0 => Some(m.body), _ => None }
+                            };
+                            let mut admissible: Vec<Vec<u8>> = (0..10).map(|i| serde_json::to_vec(&json!(format!("w{}", i))).unwrap()).collect();
+                            admissible.push(fin.clone());
+                            if let Some(cur) = read(&h) {
+                                admissible.push(cur);
+                            }
+                            let admissible = Arc::new(admissible);
+                            let bad = Arc::new(Mutex::new(Vec::<String>::new()));
+                            let ths: Vec<_> = (0..n(3).clamp(1, 3))
+                                .map(|_| {
+                                    let (h, adm, bad, path) = (h.clone(), admissible.clone(), bad.clone(), path.clone());
+                                    std::thread::spawn(move || {
+                                        for _ in 0..100 {
+                                            match catch(|| h.handle(&request(2, &path, b"", 2))) {
+                                                Ok(Ok(m)) if m.header.ec == 0 && adm.contains(&m.body) => {}
+                                                Ok(Ok(m)) => bad.lock().unwrap().push(format!("ec={} body={}", m.header.ec, hex(&m.body))),
+                                                _ => bad.lock().unwrap().push("error".into()),
+                                            }
+                                        }
+                                    })
+                                })
+                                .collect();
+                            for v in admissible.iter().take(10).chain(std::iter::once(&fin)) {
+                                let _ = catch(|| h.handle(&request(3, &path, v, 2)));
+                            }
+                            for t in ths {
+                                let _ = t.join();
+                            }
+                            let b = bad.lock().unwrap();
+                            if !b.is_empty() {
+                                out.oracle_fail("router.derive.concurrent_read", &format!("{} of the concurrent reads of {:?} returned something never written: {:?}", b.len(), path, &b[..b.len().min(3)]), &ops);
+                            }
+                            ds.written.insert("/a".to_string(), fin.clone());
+                            out.count("op.dconc");
+                            match read(&h) {
+                                Some(v) => (format!("{} ok {}", idx, hex(&v)), true),
+                                None => (format!("{} err", idx), true),
+                            }
+                        }
+                    }
+                }
+                _ => (format!("{} bad-op", idx), false),
+            };
+            out.case(line, &obs, nt);
+        }
         "dstruct" => {
             let (obs, nt) = exec_dstruct(out, ds, line, &w);
             out.case(line, &obs, nt);
         }
         "twin" => {
             out.begin(line);
+            let t0 = std::time::Instant::now();
             let (obs, nt) = exec_twin(out, line, &w);
+            out.add("twin.ms.total", t0.elapsed().as_millis() as u64);
             out.case(line, &obs, nt);
         }
         _ => out.case(line, &format!("{} bad-op", idx), false),
@@ -1324,7 +1545,19 @@ fn exec_line(out: &mut Out, sc: &mut Scen, ds: &mut DState, line: &str) {
 // ------------------------------------------------------------------------------------------
 // generators
 // ------------------------------------------------------------------------------------------
+#[derive(Default, Clone)]
+struct TwinOv {
+    blocking: Option<bool>,
+    nmw: Option<u64>,
+    order: Option<u64>,
+    decoys: Option<u64>,
+    cb: Option<u64>,
+    srv: Option<u64>,
+    io: Option<u64>,
+}
+
 struct Gen {
+    thorough: bool,
     rng: Rng,
     lines: Vec<String>,
     idx: u64,
@@ -1398,7 +1631,35 @@ impl Gen {
                     let id = self.fresh();
                     self.push("struct", &format!("{} {}", shex(&p), id));
                 }
-                _ => self.push("clone", ""),
+                _ => {
+                    if self.rng.chance(1, 2) { self.push("clone", "") } else { let k = self.rng.range(1, 3); self.push("observe", &k.to_string()) }
+                }
+            }
+            // (g) N in a row: the same path registered N times, N more middleware, or N identical gets
+            if self.rng.chance(1, 14) {
+                let n = if self.rng.chance(1, 8) { *self.rng.pick(&[64u64, 65]) } else { *self.rng.pick(&[7u64, 8, 9, 16, 17]) };
+                match self.rng.below(3) {
+                    0 => {
+                        let p = self.rng.pick(ROUTES).to_string();
+                        for _ in 0..n {
+                            let id = self.fresh();
+                            self.push("route", &format!("{} {}", shex(&p), id));
+                        }
+                        used.push(p);
+                    }
+                    1 => {
+                        for _ in 0..n.min(17) {
+                            let id = 8 * (100 + self.fresh()) + self.rng.below(5);
+                            self.push("mw", &id.to_string());
+                        }
+                    }
+                    _ => {
+                        let p = *self.rng.pick(PROBES);
+                        for _ in 0..n {
+                            self.push("get", &shex(p));
+                        }
+                    }
+                }
             }
             // observe after every registration: the routes registered so far plus a few probes
             for p in used.clone() {
@@ -1479,7 +1740,8 @@ impl Gen {
     }
 
     fn rel_path(&mut self) -> String {
-        let depth = match self.rng.below(12) {
+        let depth = match self.rng.below(13) {
+            12 => *self.rng.pick(&[19u64, 20, 21]), // the spill `Vec::with_capacity(STACK_SEGS + 4)` boundary
             0 => 0,
             1 => 1,
             2 => 15,
@@ -1524,6 +1786,21 @@ impl Gen {
         self.push("dreset", &lock.to_string());
         let root = *self.rng.pick(ROOTS);
         let norm = if root.is_empty() { String::new() } else if root.starts_with('/') { root.to_string() } else { format!("/{}", root) };
+        if self.rng.chance(1, 3) {
+            // on the fresh struct: concurrent readers and one writer
+            let k = self.rng.range(1, 3);
+            let fin = serde_json::to_vec(&json!(format!("final{}", self.rng.below(100)))).unwrap();
+            self.push("dconc", &format!("{} {} {}", shex(root), k, hex(&fin)));
+        }
+        if self.rng.chance(1, 10) {
+            // (g) a run of N identical failing requests, then business as usual
+            let n = if self.thorough && self.rng.chance(1, 20) { *self.rng.pick(&[256u64, 1000]) } else { *self.rng.pick(&[7u64, 8, 9, 16, 17, 64, 65]) };
+            let (rel, bf, body): (&str, u16, &[u8]) = *self.rng.pick(&[("/nope", 2u16, &b""[..]), ("/a", 77, &b"1"[..]), ("/a", 2, &b"{bad"[..]), ("/ro", 2, &b"1"[..])]);
+            let j = serde_json::from_slice::<Value>(body).is_ok();
+            for _ in 0..n {
+                self.push("dstruct", &format!("{} {} {} {} {} {}000 0", shex(root), shex(&format!("{}{}", norm, rel)), bf, hex(body), if j && (bf == 2) { hex(body) } else { "-".to_string() }, j as u8));
+            }
+        }
         for _ in 0..self.rng.range(8, 30) {
             // now and then: a method that panics under the lock, or the user lock told to refuse / serve again
             match self.rng.below(40) {
@@ -1570,12 +1847,17 @@ impl Gen {
 
     // ---- (iv) twins
     fn twin(&mut self, kind: &str, bfmt: u16, body: Vec<u8>) {
-        let blocking = matches!(kind, "json" | "jsonctx" | "typed" | "typedctx") && self.rng.chance(1, 2);
-        let nmw = *self.rng.pick(&[0u64, 0, 1, 2, 3, 3, 7, 8, 9, 16, 17, 33]);
+        self.twin_with(kind, bfmt, body, &TwinOv::default())
+    }
+
+    fn twin_with(&mut self, kind: &str, bfmt: u16, body: Vec<u8>, ov: &TwinOv) {
+        let mut body = body;
+        let can_block = matches!(kind, "json" | "jsonctx" | "typed" | "typedctx");
+        let blocking = can_block && ov.blocking.unwrap_or_else(|| self.rng.chance(1, 2));
+        let nmw = ov.nmw.unwrap_or_else(|| *self.rng.pick(&[0u64, 0, 1, 2, 3, 3, 7, 8, 9, 16, 17, 33]));
         let ok = self.rng.chance(3, 4);
         let code = *self.rng.pick(&[4096u32, 5, 9, 6, 4, 0, 1, 8, 7]);
-        let hints = hints_for(kind, &body);
-        let order = self.rng.below(2);
+        let order = ov.order.unwrap_or_else(|| self.rng.below(2));
         let voff = self.rng.below(9);
         // where the route lives: the usual short path, non-ASCII, long, deep
         let tpath: String = match self.rng.below(8) {
@@ -1604,15 +1886,34 @@ impl Gen {
         let reserved = if self.rng.chance(1, 4) { self.rng.boundary(32) } else { 0 };
         let reqec = if self.rng.chance(1, 4) { self.rng.boundary(32) } else { 0 };
         let trfmt = self.rng.below(15);
-        let cb = match self.rng.below(32) { 0 | 1 => 1, 2 | 3 => 2, 4 | 5 => 3, 6 => 4, _ => 0 };
-        let srv = self.rng.below(16);
-        let decoys = *self.rng.pick(&[0u64, 0, 1, 2, 3, 3]);
+        let cb = ov.cb.unwrap_or_else(|| match self.rng.below(32) { 0 | 1 => 1, 2 | 3 => 2, 4 | 5 => 3, 6 => 4, _ => 0 });
+        let srv = ov.srv.unwrap_or_else(|| self.rng.below(16));
+        // runs of identical requests before the real one: 1, 2, 7, 8, 9, 16, 17, 64, 65 (256, 1000 in the thorough tier)
+        let decoys = ov.decoys.unwrap_or_else(|| {
+            if self.thorough && self.rng.chance(1, 400) { *self.rng.pick(&[256u64, 1000]) } else { *self.rng.pick(&[0u64, 0, 0, 1, 2, 3, 3, 7, 8, 9, 16, 17, 64, 65]) }
+        });
+        // byte-stream shape of the socket leg (see tcp_roundtrip); bit 7 forces the socket leg
+        let io = ov.io.unwrap_or_else(|| {
+            let mode = *self.rng.pick(&[0u64, 0, 1, 2, 2, 3]);
+            let stall = match self.rng.below(12) { 0 => 4, 1 => 8, _ => 0 };
+            let rd = if self.rng.chance(1, 6) { 16 } else { 0 } | if self.rng.chance(1, 6) { 32 } else { 0 };
+            mode | stall | rd | if self.rng.chance(1, 10) { 128 } else { 0 }
+        });
+        // (h) frames right below / at / above the 8 KiB BufReader/BufWriter capacity (and twice that)
+        if self.rng.chance(1, 12) && matches!(bfmt, 2 | 3) && matches!(kind, "json" | "jsonctx" | "struct" | "registry") {
+            let target = *self.rng.pick(&[8191usize, 8192, 8193, 16383, 16384, 16385, 8192 - 9, 16384 - 9, 8192 - 10, 8192 - 8, 8192 + 48]); // -9: the JSON echo response frame lands on the boundary
+            if target > 48 + query.len() + 2 {
+                let k = target - 48 - query.len() - 2;
+                body = format!("\"{}\"", "x".repeat(k)).into_bytes();
+            }
+        }
+        let hints = hints_for(kind, &body);
         self.push(
             "twin",
             &format!(
-                "{} {} {} {} {} {} {} {} {} {} {} {} {} {} {} {} {} {} {} {} {} {}",
+                "{} {} {} {} {} {} {} {} {} {} {} {} {} {} {} {} {} {} {} {} {} {} {}",
                 kind, blocking as u8, nmw, bfmt, hex(&body), hints, if ok { "ok" } else { "err" }, code, order, voff, qfmt, hex(&query), rid, notify, version, reserved, reqec, trfmt, cb,
-                shex(&tpath), srv, decoys
+                shex(&tpath), srv, decoys, io
             ),
         );
     }
@@ -1695,7 +1996,7 @@ fn hints_for(kind: &str, body: &[u8]) -> String {
 
 fn generate(args: &Args) -> Vec<String> {
     let thorough = args.thorough();
-    let mut g = Gen { rng: Rng::new(args.seed), lines: vec![], idx: 0, next_id: 0 };
+    let mut g = Gen { thorough, rng: Rng::new(args.seed), lines: vec![], idx: 0, next_id: 0 };
     // fixed corpus first: the named corner cases
     for (root, path) in [("/s", "/s"), ("/s", "/s/"), ("/s", "/s/a//b/"), ("/s", "/s/~01/a~1b"), ("", ""), ("", "/"), ("/", "/x"), ("/s", "/s/1/2/3/4/5/6/7/8/9/10/11/12/13/14/15/16"),
         ("/s", "/s/1/2/3/4/5/6/7/8/9/10/11/12/13/14/15/16/17"), ("s", "/s/1/2/3/4/5/6/7/8/9/10/11/12/13/14/15/16/17/18"), ("/s", "/sx"), ("/s/", "/s//x")] {
@@ -1719,6 +2020,48 @@ fn generate(args: &Args) -> Vec<String> {
     }
     for _ in 0..(if thorough { 6000 } else { 250 }) {
         g.derived_scenario();
+    }
+    // (h) request and response frames swept across the 8 KiB / 16 KiB buffer sizes of the servers' BufReader /
+    // BufWriter, on both servers, socket leg forced
+    for base in [8192usize, 16384] {
+        for delta in [-2i64, -1, 0, 1, 2] {
+            for (srv, resp) in [(0u64, false), (0, true), (8, false), (8, true), (2 | 4, true), (1, true)] {
+                let q = TWIN_PATH.len();
+                let frame = (base as i64 + delta) as usize;
+                // request frame = 48 + q + body; JSON echo response frame = 48 + q + body + 9
+                let body_len = frame - 48 - q - if resp { 9 } else { 0 };
+                let body = format!("\"{}\"", "x".repeat(body_len - 2)).into_bytes();
+                g.push(
+                    "twin",
+                    &format!("json 0 1 2 {} {} ok 4096 0 0 1 {} 7 0 1 0 0 0 0 {} {} 1 128", hex(&body), hints_for("json", &body), shex(TWIN_PATH), shex(TWIN_PATH), srv),
+                );
+            }
+        }
+    }
+    // (k) two knobs at once: every pair of knobs at both extremes, the socket leg forced
+    {
+        let knobs: Vec<(&str, [u64; 2])> = vec![("blocking", [0, 1]), ("nmw", [0, 33]), ("order", [0, 1]), ("decoys", [0, 65]), ("cb", [0, 4]), ("nodelay", [0, 1]), ("rto", [0, 2]), ("wto", [0, 4]), ("async", [0, 8]), ("cut", [0, 1]), ("stall", [0, 4]), ("slowread", [0, 16]), ("noread", [0, 32])];
+        for i in 0..knobs.len() {
+            for j in i + 1..knobs.len() {
+                for (a, b) in [(0, 0), (0, 1), (1, 0), (1, 1)] {
+                    let mut ov = TwinOv { blocking: Some(false), nmw: Some(1), order: Some(0), decoys: Some(2), cb: Some(0), srv: Some(0), io: Some(128) };
+                    for (name, v) in [(knobs[i].0, knobs[i].1[a]), (knobs[j].0, knobs[j].1[b])] {
+                        match name {
+                            "blocking" => ov.blocking = Some(v == 1),
+                            "nmw" => ov.nmw = Some(v),
+                            "order" => ov.order = Some(v),
+                            "decoys" => ov.decoys = Some(v),
+                            "cb" => ov.cb = Some(v),
+                            "nodelay" | "rto" | "wto" | "async" => ov.srv = Some(ov.srv.unwrap() | v),
+                            _ => ov.io = Some(ov.io.unwrap() | v),
+                        }
+                    }
+                    let kind = *g.rng.pick(&["json", "typedctx", "jsonctx", "typed"]);
+                    let body = g.twin_body(kind, 2);
+                    g.twin_with(kind, 2, body, &ov);
+                }
+            }
+        }
     }
     // every kind × every format code, several bodies each
     for _ in 0..n_twin_rounds {
@@ -1744,11 +2087,14 @@ fn main() {
         None => generate(&args),
     };
     if args.thorough() {
-        E2E_CAP.store(600, Ordering::SeqCst);
+        E2E_CAP.store(2500, Ordering::SeqCst);
     }
     let mut sc = Scen::new();
     let mut ds = DState::new();
     for line in &lines {
+        if out.oracle_failures >= 12 {
+            break; // a broken tree has shown itself: stop early, the replays are written
+        }
         exec_line(&mut out, &mut sc, &mut ds, line);
     }
     out.extra.insert("ops".into(), json!(lines.len()));
